@@ -1032,5 +1032,12 @@ def shrink(c):
 # the 'reader_neg' stream keeps -1 .. -n-1 in the must-reject set.  No open findings.
 FINDINGS = {}
 
+
+def extra_obligations(work):
+    # T-int: the integer helpers this model mirrors, re-translated from the current source
+    import translate_int
+    return translate_int.obligations(work, translate_int.FOR['C05'])
+
+
 if __name__ == '__main__':
     sys.exit(common.main(sys.modules[__name__]))
